@@ -28,7 +28,8 @@
 #   Message v1         => crc:UINT32 magic:INT8(=1) attributes:INT8 timestamp:INT64 key:NULLABLE_BYTES value:NULLABLE_BYTES
 #
 # Strict: every byte accounted for, every CRC checked, counts and lengths non-negative (-1 only where NULLABLE),
-# no array longer than the bytes that remain, compressed wrappers contain only uncompressed messages, codecs other
+# no array longer than the bytes that remain, compressed wrappers contain only uncompressed messages of the wrapper's
+# own format (brokers reject "inner message magic does not match wrapper magic"), codecs other
 # than none / gzip (/ snappy when a decompressor is supplied) rejected.
 import gzip
 import zlib
@@ -149,11 +150,15 @@ def message_set(data, one):
     return out
 
 
-def inner_message(offset, mb):
-    m = message(offset, mb)
-    if m["attr"] & 7:
-        raise Reject("compressed message inside a compressed message")
-    return m
+def inner_message(wrapper_magic):
+    def one(offset, mb):
+        m = message(offset, mb)
+        if m["attr"] & 7:
+            raise Reject("compressed message inside a compressed message")
+        if m["magic"] != wrapper_magic:
+            raise Reject("inner message magic does not match wrapper magic")
+        return m
+    return one
 
 
 def outer_message(dec):
@@ -164,7 +169,7 @@ def outer_message(dec):
             return {"wrapper": False, "msg": m}
         if m["value"] is None:
             raise Reject("compressed message without value")
-        inner = message_set(dec.run(codec, m["value"]), inner_message)
+        inner = message_set(dec.run(codec, m["value"]), inner_message(m["magic"]))
         return {"wrapper": True, "msg": m, "inner": inner}
     return one
 
